@@ -23,6 +23,7 @@ type Event struct {
 	Stmt  ast.Stmt // an assignment / other simple statement (for def-use rules)
 	Exit  string   // "return" | "panic" at the end of a path
 	Loop  int      // >0: entering iteration #Loop of a loop body; -1 leaving loop
+	Frag  ast.Stmt // an isolated loop (analysed separately)
 }
 
 type pathCfg struct {
@@ -34,6 +35,12 @@ type pathCfg struct {
 	// splice (with its own path alternatives) or nil.
 	unsupported string
 	count       int
+	// classKey, when set, lets equivalent switch clauses be explored once: clauses
+	// with the same non-empty key are represented by the first of them.
+	classKey func(cc *ast.CaseClause) string
+	// isolate, when set and true for a loop statement, replaces the loop by one
+	// Fragment event (the loop body is analysed separately as its own fragment).
+	isolate func(loop ast.Stmt) bool
 }
 
 type path struct {
@@ -53,9 +60,15 @@ func (pt *path) clone() *path {
 // EnumPaths enumerates paths of fd's body. ok=false when the function uses
 // unsupported control flow or exceeds maxPaths.
 func EnumPaths(p *core.Program, fd *ast.FuncDecl, unroll, maxPaths int) (paths [][]Event, ok bool, why string) {
-	cfg := &pathCfg{p: p, maxPaths: maxPaths, unroll: unroll, stable: singleAssigned(p, fd)}
+	return EnumPathsOpt(p, fd, fd.Body.List, unroll, maxPaths, nil, nil)
+}
+
+// EnumPathsOpt enumerates the paths of a statement list of fd with optional
+// clause merging and loop isolation.
+func EnumPathsOpt(p *core.Program, fd *ast.FuncDecl, list []ast.Stmt, unroll, maxPaths int, classKey func(*ast.CaseClause) string, isolate func(ast.Stmt) bool) (paths [][]Event, ok bool, why string) {
+	cfg := &pathCfg{p: p, maxPaths: maxPaths, unroll: unroll, stable: singleAssigned(p, fd), classKey: classKey, isolate: isolate}
 	start := []*path{{conds: map[string]bool{}}}
-	out := cfg.block(fd.Body.List, start)
+	out := cfg.block(list, start)
 	if cfg.unsupported != "" {
 		return nil, false, cfg.unsupported
 	}
@@ -302,11 +315,23 @@ func (c *pathCfg) stmt(s ast.Stmt, pts []*path) []*path {
 		lv = c.calls(s.Assign, lv)
 		return append(dn, c.cases(s.Body.List, lv, nil)...)
 	case *ast.ForStmt:
+		if c.isolate != nil && c.isolate(s) {
+			for _, pt := range lv {
+				pt.ev = append(pt.ev, Event{Frag: s})
+			}
+			return append(dn, lv...)
+		}
 		if s.Init != nil {
 			lv = c.stmt(s.Init, lv)
 		}
 		return append(dn, c.loop(lv, s.Cond, s.Body, s.Post)...)
 	case *ast.RangeStmt:
+		if c.isolate != nil && c.isolate(s) {
+			for _, pt := range lv {
+				pt.ev = append(pt.ev, Event{Frag: s})
+			}
+			return append(dn, lv...)
+		}
 		lv = c.calls(s.X, lv)
 		return append(dn, c.loop(lv, nil, s.Body, nil)...)
 	case *ast.BranchStmt:
@@ -376,8 +401,17 @@ func (c *pathCfg) cases(clauses []ast.Stmt, in []*path, tag ast.Expr) []*path {
 	if tag != nil && c.stableCond(tag) {
 		key = "switch:" + types.ExprString(tag)
 	}
+	seenClass := map[string]bool{}
 	for i, cl := range clauses {
 		cc := cl.(*ast.CaseClause)
+		if c.classKey != nil && cc.List != nil {
+			if k := c.classKey(cc); k != "" {
+				if seenClass[k] {
+					continue
+				}
+				seenClass[k] = true
+			}
+		}
 		var br []*path
 		for _, pt := range in {
 			if key != "" {
